@@ -79,7 +79,13 @@ def same(heuristic, got, exp):
 def check_batch(sh, heuristic, label, frame, triplets, origin, sample=False):
     """The hook oracle: `frame` is the data frame handed to mixed_rank_graph, `triplets` what it returned."""
     cols = list(frame.columns)
-    codes = {c: pipe.codes_sorted([str(v) if not isinstance(v, str) else v for v in frame[c].tolist()]) for c in cols}
+    codes = {}
+    for c in cols:
+        vals = frame[c].tolist()
+        if vals and all(isinstance(v, int) and not isinstance(v, bool) for v in vals):
+            codes[c] = pipe.codes_sorted(vals)               # integer column: categories sorted numerically
+        else:
+            codes[c] = pipe.codes_sorted([str(v) if not isinstance(v, str) else v for v in vals])
     cache = {}
 
     def h(a, b):
@@ -135,7 +141,27 @@ def shard_frames(sh, part, parts):
         n = rng.choice([50, 120, 400] if slow else [50, 120, 400, 1000, 3000])
         ncols = rng.randint(1, 4 if (mode == 'False' and n > 400) or slow else 8)
         label = rng.choice(['label', 'label', 'click', 'f9'])
-        data, cols, classes = gen.string_frame(rng, nprng, n, ncols, label=label)
+        names = None
+        if rng.random() < 0.35:
+            # feature names that contain the label name (click_source, xlabel, labellabel ...)
+            pool = [label + '_src', 'x' + label, label + label, label + '7d', 'pre ' + label, label.upper(), label + ' ']
+            names = rng.sample(pool, min(ncols, len(pool))) + ['f%d' % i for i in range(max(0, ncols - len(pool)))]
+            rng.shuffle(names)
+        data, cols, classes = gen.string_frame(rng, nprng, n, ncols, label=label, names=names)
+        int_frame = via == 'mixed_rank_graph' and rng.random() < 0.25
+        if int_frame:
+            # library use with integer columns (negative values, values >= 2^31, narrow and wide dtypes): scores are still
+            # defined on the category codes of the contents
+            for c in cols:
+                distinct = sorted(set(data[c]))
+                style = rng.choice(['small', 'negative', 'huge', 'sparse'])
+                base_ = {'small': 0, 'negative': -len(distinct) // 2 - 1, 'huge': 2 ** 31 - 2, 'sparse': -7}[style]
+                step = 1 if style != 'sparse' else 1000003
+                perm = list(range(len(distinct)))
+                rng.shuffle(perm)
+                lut = {v: base_ + step * perm[i] for i, v in enumerate(distinct)}
+                data[c] = [lut[v] for v in data[c]]
+            classes = {c: 'int' for c in cols}
         if heuristic == 'max-value-coverage' and rng.random() < 0.5 and n >= 1000:
             # high-cardinality pair (>= 158 x >= 852 distinct values): hashed buckets would alias joint values
             data[cols[0] if cols[0] != label else cols[-1]] = ['k%d' % (i % 900) for i in range(n)]
@@ -146,6 +172,10 @@ def shard_frames(sh, part, parts):
         del captured[:]
         if via == 'mixed_rank_graph':
             df = pd.DataFrame(data, columns=cols)
+            if int_frame and rng.random() < 0.5:
+                for c in cols:
+                    if -128 <= min(data[c]) and max(data[c]) <= 127:
+                        df[c] = df[c].astype('int8')
             ok, _ = sh.call('triplet=heuristic(codes)', 'mixed_rank_graph', cr.mixed_rank_graph, df, args, pipe.SyncPool(), pipe.NullPbar())
         else:
             rows = [list(r_) for r_ in zip(*[data[c] for c in cols])]
